@@ -53,7 +53,9 @@ ATOMS_MORE = [
     ("chain-cmp-mixed", ["b = 0 <= x < y"]),
     ("chain-cmp-mixed", ["b = y > x >= 1"]),
     ("chain-cmp-mixed", ["b = x < y <= 2 != x"]),
-    ("starred-array-mid", ["p, *q, r, s = array(y, x, 5, 7)", "x = r * 10 + s"]),
+    ("chain-cmp-negative-literal", ["b = x - 3 < -1 < y"]),
+    ("chain-cmp-negative-literal", ["b = -2 <= -1 < y - 1 < 5"]),
+    ("starred-array-mid",["p, *q, r, s = array(y, x, 5, 7)", "x = r * 10 + s"]),
     ("starred-array-tail", ["*q, r, s, u = array(y, x, 5, 7, 9)", "y = r * 100 + s * 10 + u"]),
     ("starred-array-head", ["p, r, *q = array(y, x, 5)", "x = p * 10 + r"]),
     ("or-chain", ["b = x > 1 or y > 1 or x == y"]),
